@@ -109,7 +109,10 @@ class BNCase:
         C = shape[1]
         cls = nn.BatchNorm2d if len(shape) == 4 else nn.BatchNorm1d
         eps = env.scalar("eps", lo=0, hi=0.5, lo_strict=True, kind="data")
-        mom = None if sp["momentum"] is None else env.scalar("mom", lo=0, hi=1, lo_strict=True, hi_strict=True, kind="data")
+        if sp["momentum"] is None or isinstance(sp["momentum"], float):
+            mom = sp["momentum"]          # None (cumulative average) or an exact end point: 0.0 freezes, 1.0 replaces
+        else:
+            mom = env.scalar("mom", lo=0, hi=1, lo_strict=True, hi_strict=True, kind="data")
         m = cls(C, eps=eps, momentum=mom, affine=sp["affine"], track_running_stats=sp["track"])
         out = E.Outcome()
         gam = bet = None
@@ -198,8 +201,8 @@ def enumerate_specs(tier):
     for shape in shapes:
         for affine in (True, False):
             for track in (True, False):
-                for momentum in ("s", None):
-                    if not track and momentum is None:
+                for momentum in ("s", None, 0.0, 1.0):
+                    if not track and momentum != "s":
                         continue
                     for h in histories(hl):
                         idx += 1
@@ -231,7 +234,7 @@ def main(tier, seed):
                 "dropout": "p in {0, 0.5, 0.75, 0.875, 1} (1/(1-p) exactly representable), 2-4 elements", "batch norm": "N<=3, C<=2, ranks 2-4"},
         assumptions=["floats are reals", "uniform draws are fresh symbolic values in [0,1) (generator contract); 'zeroed with "
                      "probability p' is read as 'zeroed exactly when the draw is <= p'",
-                     "running variance > 0, eps > 0, momentum in (0,1) or None"],
+                     "running variance > 0, eps > 0, momentum symbolic in (0,1), exactly 0.0, exactly 1.0, or None"],
         stubs=["np.random.rand inside synapgrad -> fresh symbolic draws", "numpy creators return constant symbolic arrays"],
         rule="one configuration = layer options x input shape x history; inputs, affine parameters, initial running "
              "statistics, momentum, eps, draws and upstream gradients are symbolic")
